@@ -15,7 +15,8 @@ from props import c11
 from props.engine_common import plain
 
 # the same abstract rule set as C11, written the way that stresses the re-implementations: a tag-only rule FIRST, a global
-# variable, a condition that does not start with a function, a let binding and a field directive
+# variable, a condition that does not start with a function, a let binding and a field directive; rule 4 depends on the
+# blanks INSIDE a description (one probe description is a padded export with two blanks in it)
 RULES16 = '''# rules for explain / discover agreement
 big = amount > 1000
 
@@ -41,14 +42,12 @@ match: contains("ALFA") and over and amount > 0
 category: Big
 
 [Payroll]
-match: "PAYROLL" in description
+match: "PAYROLL" in description and regex("PAYROLL\\s+(ACME|\\sEXTRA)")
 category: Income
 subcategory: Salary
 tags: income
 
-[Matched]
-match: any(r.amount == txn.amount for r in orders)
-tags: matched
+%(matched)s
 
 [Split]
 match: contains("SPLIT") and amount > 1000
@@ -60,7 +59,13 @@ match: contains("SPLIT")
 category: Food
 subcategory: Grocery
 '''
-RULE_EXPR = {7: 'contains("SPLIT") and amount > 1000', 8: 'contains("SPLIT")', 6: 'startswith("APLPAY")', 1: 'contains("ALFA")', 2: 'contains("ALFA") and over and amount > 0', 4: '"PAYROLL" in description'}
+# the supplemental query of rule 5, spelt three ways: in the match expression itself, through a let: binding, through a
+# top-level variable (a command that decides by itself which supplemental sources "are needed" must see all three)
+MATCHED = ['[Matched]\nmatch: any(r.amount == txn.amount for r in orders)\ntags: matched\n',
+           '[Matched]\nlet: hits = [r for r in orders if r.amount == txn.amount]\nmatch: len(hits) > 0\ntags: matched\n',
+           '[Matched]\nmatch: len(order_hits) > 0\ntags: matched\n']
+MATCHED_GLOBAL = 'order_hits = [r for r in orders if r.amount == txn.amount]\n'
+RULE_EXPR = {7: 'contains("SPLIT") and amount > 1000', 8: 'contains("SPLIT")', 6: 'startswith("APLPAY")', 1: 'contains("ALFA")', 2: 'contains("ALFA") and over and amount > 0', 4: '"PAYROLL" in description and regex("PAYROLL\\s+(ACME|\\sEXTRA)")'}
 PROBES = [('nv1', 1500.0), ('nv1', 5.0), ('nv2', -800.0), ('nv3', -2.0), ('nv4', -7.0), ('nv3', 12.5), ('nvp', 5.0), ('nvq', 9.0)]
 
 
@@ -71,7 +76,8 @@ def budget_case(item):
     diffs = []
     try:
         old = c11.RULES_TEXT
-        c11.RULES_TEXT = RULES16
+        mi = random.Random(seed * 31 + 7).randrange(3)
+        c11.RULES_TEXT = (RULES16 % {'matched': MATCHED[mi]}).replace('big = amount > 1000\n', 'big = amount > 1000\n' + (MATCHED_GLOBAL if mi == 2 else ''))
         try:
             c11.materialise_budget(d, b, rnd)
         finally:
